@@ -72,6 +72,7 @@ type Gen struct {
 	curSt    *State
 	sharedSet map[string]bool
 	fnFresh  bool
+	nosafe   int
 	thenMid  *State
 	curInstr ssa.Instruction
 	exits    []exitPoint
@@ -126,6 +127,10 @@ func (g *Gen) assume(st *State, fact string) {
 }
 
 func (g *Gen) assert(st *State, kind, detail, goal, src string, pos token.Pos) {
+	if kind == "safe" && g.c != nil && g.c.NoSafety {
+		g.nosafe++
+		return
+	}
 	g.kindOrd[kind+"/"+detail]++
 	name := fmt.Sprintf("%s/%s/%s#%d", g.key, kind, detail, g.kindOrd[kind+"/"+detail])
 	if detail == "" {
@@ -787,6 +792,10 @@ func (g *Gen) expandMod(pat string) []string {
 			switch pat[2:] {
 			case "Str", "Int", "Bool":
 				g.m.compSliceHeap(pat[2:])
+			default:
+				if _, ok := g.m.structs[pat[2:]]; ok {
+					g.m.compSliceHeap(pat[2:])
+				}
 			}
 		}
 	}
